@@ -172,6 +172,23 @@ def _fls_check(a):
     worst = max(abs(x - y) / max(1.0, abs(y)) for x, y in zip(got, want))
     if worst > tol:
         return False, {"why": "UHTR g-function differs from the analytical FLS superposition", "worst_relative": worst, "got": got[:3], "want": want[:3]}
+    # the same through calc_g_func_for_multiple_lengths (what the search and the sizing call): arguments forwarded unchanged, results stored under the right keys
+    from ghedesigner.gfunction import calc_g_func_for_multiple_lengths
+
+    H2 = H * 0.5
+    gfm = calc_g_func_for_multiple_lengths(7.5, [H, H2], rb, D, 0.3, d.bhe_type, list(lnt), coords, d.fluid, d.pipe, d.grout, d.soil, boundary="UHTR")
+    for hh in (H, H2):
+        tt = [math.exp(x) * hh * hh / (9.0 * alpha) for x in lnt]
+        wantm = _fls_g(coords, hh, D, rb, alpha, tt)
+        gotm = [float(x) for x in gfm.g_lts[hh]]
+        worstm = max(abs(x - y) / max(1.0, abs(y)) for x, y in zip(gotm, wantm))
+        if len(gotm) != len(wantm) or worstm > tol:
+            return False, {"why": "calc_g_func_for_multiple_lengths: the curve stored for a height is not the FLS curve of boreholes of that height, depth and radius at t = exp(log_time) H^2/(9 alpha)",
+                           "height": hh, "worst_relative": worstm, "signature": "family-curve"}
+        if gfm.r_b_values[hh] != rb:
+            return False, {"why": "calc_g_func_for_multiple_lengths stores another radius than the one it was given", "signature": "family-radius"}
+    if gfm.d != D or gfm.B != 7.5 or list(gfm.log_time) != list(lnt) or [tuple(c) for c in gfm.bore_locations] != coords:
+        return False, {"why": "calc_g_func_for_multiple_lengths: burial depth, spacing, time axis or coordinates of the returned family are not the arguments", "signature": "family-fields"}
     if len(coords) == 1 and a.get("mift", True):
         gm = calculate_g_function(0.3, d.bhe_type, np.array(times), coords, bh, d.fluid, d.pipe, d.grout, d.soil)
         w2 = max(abs(float(x) - y) / abs(y) for x, y in zip(gm.gFunc, want) if abs(y) > 0.5)
@@ -199,7 +216,7 @@ def _fls_gen(rng):
 
 
 native("ghedesigner.gfunction:calculate_g_function", _fls_check, _fls_gen, None,
-       bound="1..12 boreholes (single, line, grid, L, irregular), H 60..150 m, D 1..4 m, r_b 50..100 mm, 7 of Eskilson's 27 times: pygfunction UHTR vs scipy-quadrature FLS")
+       bound="1..12 boreholes (single, line, grid, L, irregular), H 60..150 m, D 1..4 m, r_b 50..100 mm, 7 of Eskilson's 27 times: pygfunction UHTR vs scipy-quadrature FLS, directly and through calc_g_func_for_multiple_lengths (two heights; stored radius, depth, spacing, time axis, coordinates)")
 
 
 # ---- grab_g_function (composition) and the g-function table of the outputs (C19 clause) -------------------------------
